@@ -1,7 +1,9 @@
 /-
 C19 — executable model of `pkg/trait/electricpb` `Model` (model.go) and of the mode-related RPCs of
 `ModelServer` (model_server.go: UpdateActiveMode, ClearActiveMode; memory_settings.go: CreateMode,
-UpdateMode, DeleteMode), after the two `fix:` commits for C19 (see known_findings/C19.json).
+UpdateMode, DeleteMode), after the three `fix:` commits for C19 (see known_findings/C19.json), including the
+Model-level write options of `UpdateMode` / `DeleteMode` (`WithCreateIfAbsent`, `WithExpectAbsent`,
+`WithExpectedValue`; `WOpts`) and the checks the construction makes on `WithInitialMode` (`St.config?`).
 
 The model is sequential: every mutator of `Model` holds `Model.mu` for its whole body, so a concurrent
 mix is an interleaving of whole operations (`Conc.lean`).  `resource.Collection` / `resource.Value` are
